@@ -174,7 +174,7 @@ Section States.
         * rewrite points_to_eof_spec. lia.
         * unfold flags_rel. cbn [m_at m_br m_pw SB.m_atSignSeen SB.m_insideBrackets SB.m_passwordTokenSeen].
           repeat split; [exact Hbr].
-        * split; [reflexivity|]. split; [constructor|]. split; [cbn [length]; lia|]. split.
+        * split; [reflexivity|]. split; [constructor|]. Show. split; [cbn [length]; lia|]. split.
           -- apply R_cred; [|exact Fr]. apply R_noted. exact HR.
           -- unfold list_path, SU.has_opaque_path in *. destruct Fr as [_ [_ [_ [F4 _]]]]. rewrite F4. exact Hlp.
         * discriminate.
